@@ -314,6 +314,7 @@ class Controller:
         self.aborted = False
         self.schedule = []
         self._yielded = _Signal()
+        self.thread_names = None      # optional: names given to the worker threads (default: Python's Thread-N)
 
     # ---- worker side
     def _park(self, rec, state, why, lock):
@@ -363,6 +364,8 @@ class Controller:
         self.recs = [_Rec(i, self) for i in range(len(bodies))]
         for rec, body in zip(self.recs, bodies):
             rec.thread = threading.Thread(target=self._worker, args=(rec, body), daemon=True)
+            if self.thread_names is not None:
+                rec.thread.name = self.thread_names[rec.tid % len(self.thread_names)]
             rec.thread.start()
         try:
             for rec in self.recs:                      # run everybody up to its first park, one at a time
